@@ -33,6 +33,7 @@ PROPS = [
  ("fix: MPD startNumber ignored the configured start number", ["C02"]),
  ("fix: generated time-subtitle segments listed by a low-latency MPD", ["C02"]),
  ("fix: thumbnail segments listed by a low-latency MPD", ["C02"]),
+ ("fix: a patch request without publishTime", ["C11"]),
  ("fix: MPD patch: adaptation sets other than video/audio", ["C11"]),
  ("fix: EndTime read ResetTime without the limiter mutex", ["C20"]),
  ("fix: receiver: the stream table was read and written by concurrent upload handlers", ["C19"]),
